@@ -135,6 +135,9 @@ def direction1(run, quick, rng):
                     w.add_key('a', 'b', b'pw-b', shared=True, settings_={'encryption': {'kdf': dict(harness.FAST_KDF)}})
                 users = sorted(w.users)
                 tree = {('f%d.bin' % i): rng.randbytes(rng.choice([0, 1, 5, cfg['mx'], 3 * cfg['mx'] + 1, 500])) for i in range(4)}
+                # names that are not ASCII, and one that is not even valid UTF-8 (legal on Linux): the stored JSON must stay decodable by a strict reader
+                tree['caf\u00e9 \u6f22.bin'] = rng.randbytes(9)
+                tree[b'scan-\xff\xfe-1998.dat'] = rng.randbytes(11)
                 if rep == 0 and gi in wide:
                     # a WIDE snapshot: hundreds of files, a private section of well over 64 KiB (size-dependent encodings are invisible in small ones)
                     tree.update({('w/%02d/n%03d.dat' % (i % 7, i)): rng.randbytes(rng.choice([0, 3, 17, 40])) for i in range(420)})
